@@ -340,6 +340,11 @@ class Frame(object):
         # add back the waterfall object.
         waterfall = self.get_waterfall()
         if waterfall is not None:
+            # Remove h5 object, which can't be pickled
+            try:
+                del waterfall.container.h5
+            except AttributeError:
+                pass
             c_frame.waterfall = copy.deepcopy(waterfall)
         return c_frame
 
